@@ -109,13 +109,26 @@ def location_matches(td, loc, E):
     return td == top or td.startswith(top.rstrip('/') + '/')
 
 
-def classify_put(before, after, E, orig=None, orig_path=None):
+def classify_put(before, after, E, orig=None, orig_path=None, others=()):
     """-> dict(state=TRASHED|UNTOUCHED|HALF, why=[...], pair=(td, name)|None, new_infos, new_payloads)
     before/after: whole-world snapshots; E: canonical entry path (or None = argument names nothing).
     orig/orig_path: snapshot+path holding the original entry (default before/E)."""
     orig = orig if orig is not None else before
     orig_path = orig_path or E
     ni, npay = new_infos(before, after), new_payloads(before, after)
+    if others:
+        # multi-argument run: leave out the pairs that belong to the other denoted entries
+        mine_i = []
+        foreign = set()
+        for td, nm in ni:
+            loc, _p = trashinfo_location(td, info_of(after, td, nm) or b'')
+            if loc is not None and any(location_matches(td, loc, o) for o in others) and not (
+                    E is not None and location_matches(td, loc, E)):
+                foreign.add((td, nm))
+            else:
+                mine_i.append((td, nm))
+        ni = mine_i
+        npay = [x for x in npay if x not in foreign]
     why = []
     res = {'new_infos': ni, 'new_payloads': npay, 'pair': None}
     if E is None:
